@@ -850,8 +850,15 @@ def run(c: Check):
         graphs.append(gen_graph(c.rng))
 
     # ---- workspace half
+    # small independent driver calls, run beside the workspaces: the class table after / before @deprecate, the directed probes
+    probes = [{"c": "DefHolder", "a": {"n": n, "leaf": {"c": cl, "a": {"v": 1}}}} for n in (0, 1) for cl in ("OldLeaf", "OlderLeaf")]
+    side = ThreadPoolExecutor(max_workers=3)
+    f_now = side.submit(run_impl, "drive_c20.py", dict(phase="C"), extra_env={"VPK_C20_DEPRECATED": "1"})
+    f_before = side.submit(run_impl, "drive_c20.py", dict(phase="C"), extra_env={"VPK_C20_DEPRECATED": "0"})
+    f_probes = side.submit(run_impl, "drive_c20.py", dict(phase="I", graphs=probes), timeout=600,
+                           extra_env={"VPK_C20_DEPRECATED": "1"})
     answers = run_workspaces(c, cases) if cases else []
-    classes_now = run_impl("drive_c20.py", dict(phase="C"), extra_env={"VPK_C20_DEPRECATED": "1"}) if cases else []
+    classes_now = f_now.result()
     items, loads = [], []
     col = Collector()
     for case, ans in zip(cases, answers):
@@ -914,7 +921,7 @@ def run(c: Check):
                "model.Deprecate corr.DeprecateCorr.\nImport ListNotations.\n")
     lbad = c.corr_shards("load", lheader, loads, g_load, "check_load", shard=120 if c.quick else 400) if loads else []
     # what @deprecate does to the class table: the model's `deprecate` applied to the real table before must give the real table after
-    classes_before = run_impl("drive_c20.py", dict(phase="C"), extra_env={"VPK_C20_DEPRECATED": "0"}) if cases else []
+    classes_before = f_before.result()
     if cases:
         if any(cl["deprecated"] for cl in classes_before) or [cl["py"] for cl in classes_before] != [cl["py"] for cl in classes_now]:
             raise InternalError("phase C: class tables before / after @deprecate are not aligned")
@@ -953,9 +960,7 @@ def run(c: Check):
         # directed probe (reported under its own key only): a deprecated-class instance equal to a parameter's DEFAULT
         # (a configuration-valued default) - Config.__eq__ compares the python classes, so the value is not recognised
         # as the default and is hashed, while the replacement's instance is skipped
-        probes = [{"c": "DefHolder", "a": {"n": n, "leaf": {"c": cl, "a": {"v": 1}}}} for n in (0, 1) for cl in ("OldLeaf", "OlderLeaf")]
-        for g, a in zip(probes, run_impl("drive_c20.py", dict(phase="I", graphs=probes), timeout=600,
-                                         extra_env={"VPK_C20_DEPRECATED": "1"})):
+        for g, a in zip(probes, f_probes.result()):
             c.evaluations += 1
             c.count("graph:probe-config-valued-default")
             if a["old"] != a["new"] or a["old_type"] != a["new_type"]:
